@@ -272,38 +272,36 @@ End Surfaces.
 (* 3. Lattice ranges against the dimensionality of the lattice cell        *)
 (* ---------------------------------------------------------------------- *)
 
-Lemma bounds_dims_le (b : bounds) : (bounds_dims b <= List.length b)%nat.
-Proof.
-  unfold bounds_dims. induction b as [|x b IH]; simpl; [lia|].
-  destruct (nontrivial x); simpl; lia.
-Qed.
-
 Lemma lattice_dims_exact nb b :
-  lattice_dims_check nb b = Ok tt <-> (nb = List.length b \/ nb = bounds_dims b).
+  lattice_dims_check nb b = Ok tt <->
+  ((nb <= List.length b)%nat /\ forall r, In r (skipn nb b) -> fst r = snd r).
 Proof.
   unfold lattice_dims_check.
-  destruct (Nat.eqb_spec nb (List.length b)) as [E|E]; [tauto|].
-  destruct (Nat.eqb_spec nb (bounds_dims b)) as [E2|E2]; simpl.
-  - pose proof (bounds_dims_le b) as Hle.
-    replace (Z.to_nat (Z.of_nat nb - Z.of_nat (List.length b))) with 0%nat by lia.
-    simpl. tauto.
-  - split; [discriminate|tauto].
+  destruct (Nat.ltb_spec (List.length b) nb) as [E|E].
+  - split; [discriminate|intros [H _]; lia].
+  - destruct (existsb nontrivial (skipn nb b)) eqn:Ex.
+    + split; [discriminate|]. intros [_ H]. exfalso.
+      apply existsb_exists in Ex as [r [Hr Hn]]. specialize (H r Hr).
+      unfold nontrivial in Hn. rewrite H in Hn. rewrite Z.eqb_refl in Hn. discriminate.
+    + split; [|reflexivity]. intros _. split; [exact E|].
+      intros r Hr. destruct (Z.eq_dec (fst r) (snd r)) as [Heq|Hne]; [exact Heq|exfalso].
+      assert (Hex : existsb nontrivial (skipn nb b) = true).
+      { apply existsb_exists. exists r. split; [exact Hr|]. unfold nontrivial.
+        destruct (Z.eqb_spec (fst r) (snd r)); [contradiction|reflexivity]. }
+      rewrite Hex in Ex. discriminate.
 Qed.
 
 Lemma lattice_dims_rejected nb b :
-  nb <> List.length b -> nb <> bounds_dims b -> lattice_dims_check nb b = Err ELattice.
+  ((List.length b < nb)%nat \/ exists r, In r (skipn nb b) /\ fst r <> snd r) ->
+  lattice_dims_check nb b = Err ELattice.
 Proof.
-  intros H1 H2. unfold lattice_dims_check.
-  destruct (Nat.eqb_spec nb (List.length b)); [contradiction|].
-  destruct (Nat.eqb_spec nb (bounds_dims b)); [contradiction|reflexivity].
+  intros H. destruct (lattice_dims_check nb b) as [[]|e] eqn:E.
+  - apply lattice_dims_exact in E as [H1 H2]. destruct H as [H|[r [Hr Hne]]]; [lia|].
+    exfalso. apply Hne. auto.
+  - unfold lattice_dims_check in E.
+    destruct (List.length b <? nb)%nat; [congruence|].
+    destruct (existsb nontrivial (skipn nb b)); congruence.
 Qed.
-
-(* the loop over the "missing" bounds of develop_lattice never executes: when it
-   is reached, the number of iterations is 0 *)
-Lemma missing_loop_dead nb b :
-  nb <> List.length b -> nb = bounds_dims b ->
-  Z.to_nat (Z.of_nat nb - Z.of_nat (List.length b)) = 0%nat.
-Proof. intros H1 H2. pose proof (bounds_dims_le b). lia. Qed.
 
 Lemma square_nb_exact n k :
   square_nb n = Ok k <-> (n = 2 /\ k = 1 \/ n = 4 /\ k = 2 \/ n = 6 /\ k = 3)%nat.
@@ -999,7 +997,7 @@ Section LatticeRuns.
         cs_fill cs = Some (FLat b univs) -> c_compl c = [] ->
         exists ns nb, count_subsurfs sm (c_lits c) = Ok ns /\
           (ns = 2 /\ nb = 1 \/ ns = 4 /\ nb = 2 \/ ns = 6 /\ nb = 3)%nat /\
-          (nb = List.length b \/ nb = bounds_dims b) /\
+          ((nb <= List.length b)%nat /\ forall r, In r (skipn nb b) -> fst r = snd r) /\
           Z.of_nat (List.length univs) = bounds_size b.
   Proof.
     intros H lat trs sm imps cells E1 E2 E3 E4 E5 c cs b univs Hin Hl Hf Hc.
